@@ -399,6 +399,20 @@ def check_arrays(cls, p, h, xs, term=None):
             same = (u != u and w != w) or u == w or abs(u - w) <= 1e-12 * (1 + abs(u))
             if not same:
                 return False, f"{cls}{tuple(p)} height {h}: {nm} array gives {w!r} at x={x!r}, scalar call gives {u!r}"
+    # batches without any point inside the support (all exterior / NaN / infinite), of every small shape
+    fin = [x for x in xs if x == x and abs(x) != float("inf")] or [0.0]
+    lo, hi = min(fin) - 1000.0, max(fin) + 1000.0
+    for batch in ([NAN, hi], [NAN, NAN], [lo, NAN], [float("inf"), NAN, hi], [lo, hi], [NAN], [hi, NAN, lo, NAN]):
+        one = [impl(term, x) for x in batch]
+        for shape in ((len(batch),), (len(batch), 1), (1, len(batch))):
+            arr = impl_array(term, np.array(batch, dtype=float).reshape(shape))
+            if arr.shape != shape:
+                return False, f"{cls}{tuple(p)}: membership of an array of shape {shape} has shape {arr.shape}"
+            for x, u, w in zip(batch, one, arr.reshape(-1)):
+                same = (u != u and w != w) or u == w or abs(u - w) <= 1e-12 * (1 + abs(u))
+                if not same:
+                    return False, (f"{cls}{tuple(p)} height {h}: membership({batch!r} as shape {shape}) gives {w!r} at x={x!r}, "
+                                   f"the scalar call gives {u!r}")
     return True, "ok"
 
 
@@ -777,6 +791,9 @@ def search(ctx):
             if not ok:
                 return [({"cls": cls, "params": p, "height": h, "x": x}, d)]
         ok, d = check_monotone(cls, p, h, [x for x, _ in xs], term) if cls not in ("Constant", "Discrete") else (True, "")
+        if not ok:
+            return [({"cls": cls, "params": p, "height": h, "x": xs[0][0]}, d)]
+        ok, d = check_arrays(cls, p, h, [x for x, _ in xs][:6], term)
         if not ok:
             return [({"cls": cls, "params": p, "height": h, "x": xs[0][0]}, d)]
     return []
